@@ -105,7 +105,7 @@ def run(ctx):
     names = ['bbb_v7', 'bbb_v7_enc', 'bbb_a1_enc', 'bbb_a1', 'bbb_t1']
     reps = {n: seghttp.rep_of(env, n) for n in names}
     reqs, meta = [], []
-    ntr = 90 if ctx.quick() else 1200
+    ntr = 150 if ctx.quick() else 1500
     for trial in range(ntr):
         name = names[trial % len(names)]
         rep, ctype = reps[name]
@@ -130,12 +130,14 @@ def run(ctx):
                 q.append('bugs=saio')
                 saio_bug = True
         events = []
-        if ctype == 'video' and rng.random() < 0.6:
-            ev = rng.choice(['ping', 'scte35', 'ping,scte35'])
+        if ctype == 'video' and rng.random() < 0.75:
+            # one or two in-band event streams, in both orders, with schedules from several events per segment to one event
+            # every other segment (so that some segments carry events of one stream only)
+            ev = rng.choice(['ping', 'scte35', 'ping,scte35', 'scte35,ping', 'ping,scte35'])
             q.append('events=' + ev)
             for e in ev.split(','):
-                if rng.random() < 0.5:
-                    q.append('%s__interval=%d' % (e, rng.choice([100, 150, 1000])))
+                if rng.random() < 0.7:
+                    q.append('%s__interval=%d' % (e, rng.choice([100, 150, 1000, 3000, 5000, 7000, 9000])))
         n = len(rep['durs'])
         if mode == 'vod':
             k = rng.randint(rep['start_number'], rep['start_number'] + n - 1)
